@@ -10,6 +10,8 @@ from .values import *   # noqa
 from . import typedefs
 
 sys.setrecursionlimit(200000)
+import os
+SLOWLOG = bool(os.environ.get('SMIR_SLOWLOG'))
 
 
 class Stats:
@@ -22,6 +24,7 @@ class Stats:
         self.fns = set()
         self.summaries = set()
         self.forks = 0
+        self.quick = 0
 
 
 class State:
@@ -181,6 +184,8 @@ class Interp:
         self.fresh_n = 0
         self.summ_cache = {}
         self.closure_index = {}
+        self.var_bounds = {}
+        self.bcache = {}
         self.max_blocks = 400000
         self.loop_bound = 64
         from . import summaries
@@ -243,6 +248,129 @@ class Interp:
         self.fresh_n += 1
         return StrV(-self.fresh_n)
 
+    # ------------------------------------------------------------------ interval pre-analysis
+    def set_bounds(self, v, lo, hi):
+        self.var_bounds[v.decl().name()] = (lo, hi)
+
+    def bounds(self, e):
+        """(lo, hi) of an integer term from the registered variable ranges; None = unbounded."""
+        if isinstance(e, bool):
+            return (int(e), int(e))
+        if isinstance(e, int):
+            return (e, e)
+        eid = e.get_id()
+        r = self.bcache.get(eid)
+        if r is not None:
+            return r
+        r = self._bounds(e)
+        self.bcache[eid] = r
+        return r
+
+    def _bounds(self, e):
+        if z3.is_int_value(e):
+            v = e.as_long()
+            return (v, v)
+        if not z3.is_app(e):
+            return (None, None)
+        k = e.decl().kind()
+        ch = e.children()
+        if k == z3.Z3_OP_UNINTERPRETED and not ch:
+            return self.var_bounds.get(e.decl().name(), (None, None))
+        if k == z3.Z3_OP_ADD:
+            lo, hi = 0, 0
+            for c in ch:
+                a, b = self.bounds(c)
+                lo = None if (lo is None or a is None) else lo + a
+                hi = None if (hi is None or b is None) else hi + b
+            return (lo, hi)
+        if k == z3.Z3_OP_SUB:
+            a, b = self.bounds(ch[0])
+            for c in ch[1:]:
+                c1, c2 = self.bounds(c)
+                a = None if (a is None or c2 is None) else a - c2
+                b = None if (b is None or c1 is None) else b - c1
+            return (a, b)
+        if k == z3.Z3_OP_UMINUS:
+            a, b = self.bounds(ch[0])
+            return (None if b is None else -b, None if a is None else -a)
+        if k == z3.Z3_OP_MUL:
+            lo, hi = 1, 1
+            for c in ch:
+                a, b = self.bounds(c)
+                if lo is None or a is None or b is None:
+                    return (None, None)
+                cands = [lo * a, lo * b, hi * a, hi * b]
+                lo, hi = min(cands), max(cands)
+            return (lo, hi)
+        if k == z3.Z3_OP_ITE:
+            a1, b1 = self.bounds(ch[1])
+            a2, b2 = self.bounds(ch[2])
+            return (None if (a1 is None or a2 is None) else min(a1, a2),
+                    None if (b1 is None or b2 is None) else max(b1, b2))
+        return (None, None)
+
+    def quick(self, c):
+        """True = valid, False = unsatisfiable, None = undecided (w.r.t. registered ranges only)."""
+        if c is True or c is False:
+            return c
+        if z3.is_true(c):
+            return True
+        if z3.is_false(c):
+            return False
+        if not z3.is_app(c):
+            return None
+        k = c.decl().kind()
+        ch = c.children()
+        if k == z3.Z3_OP_NOT:
+            r = self.quick(ch[0])
+            return None if r is None else (not r)
+        if k == z3.Z3_OP_AND:
+            allt = True
+            for x in ch:
+                r = self.quick(x)
+                if r is False:
+                    return False
+                if r is None:
+                    allt = False
+            return True if allt else None
+        if k == z3.Z3_OP_OR:
+            allf = True
+            for x in ch:
+                r = self.quick(x)
+                if r is True:
+                    return True
+                if r is None:
+                    allf = False
+            return False if allf else None
+        if k in (z3.Z3_OP_LE, z3.Z3_OP_LT, z3.Z3_OP_GE, z3.Z3_OP_GT, z3.Z3_OP_EQ) and len(ch) == 2 and z3.is_int(ch[0]):
+            a1, b1 = self.bounds(ch[0])
+            a2, b2 = self.bounds(ch[1])
+            if k == z3.Z3_OP_GE:
+                a1, b1, a2, b2, k = a2, b2, a1, b1, z3.Z3_OP_LE
+            elif k == z3.Z3_OP_GT:
+                a1, b1, a2, b2, k = a2, b2, a1, b1, z3.Z3_OP_LT
+            if k == z3.Z3_OP_LE:
+                if b1 is not None and a2 is not None and b1 <= a2:
+                    return True
+                if a1 is not None and b2 is not None and a1 > b2:
+                    return False
+                return None
+            if k == z3.Z3_OP_LT:
+                if b1 is not None and a2 is not None and b1 < a2:
+                    return True
+                if a1 is not None and b2 is not None and a1 >= b2:
+                    return False
+                return None
+            if k == z3.Z3_OP_EQ:
+                if a1 is not None and b2 is not None and a1 > b2:
+                    return False
+                if b1 is not None and a2 is not None and b1 < a2:
+                    return False
+                if a1 is not None and a1 == b1 and a2 == b2 and a1 == a2:
+                    return True
+                return None
+        return None
+
     # ------------------------------------------------------------------ solver
     def feasible(self, st, cond):
         if cond is True:
@@ -254,6 +382,10 @@ class Interp:
             return True
         if z3.is_false(c):
             return False
+        qk = self.quick(c)
+        if qk is not None:
+            self.stats.quick += 1
+            return qk
         t0 = time.time()
         pc = st.pc
         ss = self.sstack
@@ -273,7 +405,10 @@ class Interp:
         r = self.solver.check()
         self.solver.pop()
         self.stats.feas_queries += 1
-        self.stats.solver_s += time.time() - t0
+        dt = time.time() - t0
+        self.stats.solver_s += dt
+        if SLOWLOG and dt > 0.3:
+            sys.stderr.write('SLOW %.2fs %s pc=%d cond=%s\n' % (dt, r, len(pc), str(c)[:200].replace('\n', ' ')))
         if r == z3.unknown:
             self.stats.feas_unknown += 1
             return True
@@ -291,7 +426,7 @@ class Interp:
             b = b != 0
         nb = z3.Not(b)
         ft = self.feasible(st, b)
-        ff = self.feasible(st, nb)
+        ff = True if not ft else self.feasible(st, nb)
         if ft and ff:
             self.stats.forks += 1
             st2 = st.clone()
@@ -558,9 +693,23 @@ class Interp:
             if y == 0:
                 raise Gap('concrete division by zero reached idiv')
             return x // y, x % y
+        # exact simplifications that avoid a fresh quotient
+        if not is_sym(y) and is_sym(x):
+            xs = z3.simplify(x)
+            if z3.is_app(xs) and xs.decl().kind() == z3.Z3_OP_MUL:
+                ch = xs.children()
+                if len(ch) == 2 and z3.is_int_value(ch[0]) and ch[0].as_long() % y == 0:
+                    return (ch[0].as_long() // y) * ch[1], 0
         q = self.fresh('q')
         r = self.fresh('r')
         st.add(z3.And(x == q * y + r, r >= 0, r < y, q >= 0))
+        xl, xh = self.bounds(x)
+        yl, yh = self.bounds(y)
+        qh = None
+        if xh is not None:
+            qh = xh // max(yl, 1) if yl is not None else xh
+        self.var_bounds[q.decl().name()] = (0, qh)
+        self.var_bounds[r.decl().name()] = (0, None if yh is None else yh - 1)
         return q, r
 
     def rvalue(self, st, fn, base, rv, dest_ty=None):
